@@ -231,6 +231,59 @@ func runC06(c *eng.Ctx, tier string) {
 	c06Writer(c)
 	c06File(c)
 	c06Principal(c)
+	c06Forbidden(c)
+}
+
+// c06Forbidden (R-C06-3): the server answers 403 only (a) at the no-browsers
+// header gate (not a permission decision) or (b) because the store returned
+// ErrAccessDenied -- and the store wrote the denial to the audit log before
+// doing so.  Any other 403 would be a refusal for lack of permission without
+// a record.
+func c06Forbidden(c *eng.Ctx) {
+	p := c.P
+	n := 0
+	for _, f := range p.PkgFuncs("server") {
+		eng.Instrs(f, func(in ssa.Instruction) {
+			call, ok := in.(*ssa.Call)
+			if !ok {
+				return
+			}
+			var code ssa.Value
+			if eng.CalleeIs(&call.Call, "net/http", "Error") {
+				code = call.Call.Args[2]
+			} else if call.Call.IsInvoke() && call.Call.Method.Name() == "WriteHeader" {
+				code = call.Call.Args[0]
+			} else {
+				return
+			}
+			k, isK := eng.ConstInt(code)
+			if !isK {
+				// status passed through a helper parameter: judged at the helper's call sites by C08
+				return
+			}
+			if k != 403 {
+				return
+			}
+			n++
+			okk := false
+			for _, cond := range eng.FactsAt(in) {
+				if ec, _, truth, isCall := cond.BoolCall(); isCall && truth && eng.CalleeIs(&ec.Call, "errors", "Is") && eng.IsGlobalLoad(ec.Call.Args[1], "db", "ErrAccessDenied") {
+					okk = true
+				}
+				if op, x, y, isCmp := cond.Cmp(); isCmp && op.String() == "!=" {
+					if h, isH := headerGet(x); isH && h == "Sec-X-Tailscale-No-Browsers" {
+						if s, isC := eng.ConstString(y); isC && s == "setec" {
+							okk = true
+						}
+					}
+				}
+			}
+			c.Check(okk, "R-C06-3", f, in.Pos(), "403 reply in "+eng.FName(f), "a request is answered 403 only at the no-browsers gate or when the store reported ErrAccessDenied (having audited the denial)", "holding: "+eng.FactsString(in))
+		})
+	}
+	if n < 3 {
+		c.Undecided("R-C06-3", nil, 0, "403 replies in package server", "fewer than 3 found")
+	}
 }
 
 func nameOf(p *ssa.Parameter) string {
@@ -502,6 +555,27 @@ func c06Writer(c *eng.Ctx) {
 		}
 	})
 	c.Check(okSync, "R-C06-6", syn, syn.Pos(), "Writer.Sync forwards to the sink", "returns l.w.(interface{Sync() error}).Sync() when the sink has one", "no such forwarding return found")
+	// ... and never swallows the sink's error: from each sink Sync call, on its error edge no nil return is reachable
+	eng.Instrs(syn, func(in ssa.Instruction) {
+		call, ok := in.(*ssa.Call)
+		if !ok || !call.Call.IsInvoke() || call.Call.Method.Name() != "Sync" {
+			return
+		}
+		hit, path := eng.Search(syn, call, eng.AssumeErr(call, false), nil, func(x ssa.Instruction) bool {
+			r, isR := x.(*ssa.Return)
+			if !isR {
+				return false
+			}
+			rv := eng.RetVals(r)
+			return !(eng.Same(rv[0], call) || nonNilAt(rv[0], eng.FactsAt(r)) == eng.Yes)
+		})
+		c.Check(hit == nil, "R-C06-6", syn, in.Pos(), "error of the sink's Sync", "returned to the caller whatever its kind (the record is acknowledged only when synced; an fsync error fails the request)", func() string {
+			if hit == nil {
+				return ""
+			}
+			return "return at " + c.P.Pos(hit.Pos()) + " may report success after a failed sync: " + c.P.PathStr(path)
+		}())
+	})
 	// New: encoder built directly on the synced sink
 	okNew := false
 	detail := ""
